@@ -12,6 +12,7 @@ import (
 	"verif/internal/lx"
 	"verif/internal/mx"
 	"verif/internal/px"
+	"verif/internal/space"
 )
 
 const levelMC = "model_checking"
@@ -31,9 +32,21 @@ func sweepTier(tier string, quick, thorough bx.Tier) bx.Tier {
 }
 
 var (
-	quickSweep    = bx.Tier{PN: 4, SK: 1, LASCII: 4, LBig: 3, LUTF8: 3, LUTF8Big: 2, LRaw: 3, LRawBig: 2, EmbedW: 1, EmbedPN: 3, TokL: 3, TokN: 5, SeedEmbW: 2, SeedEmbTokN: 8, SeedJ: []int{0, 33}, SeedEmbFirst: 90, Budget: 150 * time.Second}
-	thoroughSweep = bx.Tier{PN: 5, SK: 2, LASCII: 4, LUTF8: 3, LRaw: 3, EmbedW: 1, TokL: 3, TokN: 7, SeedEmbW: 1, Budget: 40 * time.Minute}
+	// nSeeds: the strategy seeds themselves come first in S(k) and are the only seed patterns that get embeddings
+	nSeeds     = len(space.Seeds)
+	quickSweep = bx.Tier{PN: 4, SK: 1, LASCII: 4, LBig: 3, LUTF8: 3, LUTF8Big: 2, LRaw: 3, LRawBig: 2, EmbedW: 1, EmbedPN: 3, TokL: 3, TokN: 5, SeedEmbW: 2, SeedEmbTokN: 8, SeedJ: []int{0, 33}, SeedEmbFirst: nSeeds, SeedTokL: 5, SeedTokN: 6, Budget: 150 * time.Second}
+	// thorough = the quick space plus every 5-node pattern (on ASCII haystacks of <= 3 symbols) and the two-edit
+	// seed neighbourhoods (on their token words): a superset, so one known-finding set serves both tiers
+	thoroughSweep = thoroughOf(quickSweep)
 )
+
+func thoroughOf(q bx.Tier) bx.Tier {
+	t := q
+	t.HugePN, t.LHuge = q.PN, min(3, q.LASCII)
+	t.PN, t.SK = q.PN+1, q.SK+1
+	t.Budget = 25 * time.Minute
+	return t
+}
 
 func sweepProp(id, rule string, needEng, needRef bool, q, t bx.Tier, body func(tier string) bx.PerHay) {
 	registry[id] = func(tier string) *harness.Plan {
@@ -93,10 +106,8 @@ func init() {
 			return func(cx *bx.Ctx, h []byte, hi int) bool { return cx.OpsC03(h) }
 		})
 	// the enumeration / cross-view checks run ~10x more evaluations per (pattern, haystack): smaller haystack sets
-	q4 := bx.Tier{PN: 4, SK: 1, LASCII: 3, LBig: 2, LUTF8: 2, LUTF8Big: 2, LRaw: 2, LRawBig: 1, EmbedW: 1, EmbedPN: 2, TokL: 2, TokN: 5, SeedEmbW: 2, SeedEmbTokN: 8, SeedJ: []int{0, 33}, SeedEmbFirst: 90, Budget: 150 * time.Second}
-	t4 := thoroughSweep
-	t4.PN = 4
-	t4.LASCII = 5
+	q4 := bx.Tier{PN: 4, SK: 1, LASCII: 3, LBig: 2, LUTF8: 2, LUTF8Big: 2, LRaw: 2, LRawBig: 1, EmbedW: 1, EmbedPN: 2, TokL: 2, TokN: 5, SeedEmbW: 2, SeedEmbTokN: 8, SeedJ: []int{0, 33}, SeedEmbFirst: nSeeds, SeedTokL: 4, SeedTokN: 6, Budget: 150 * time.Second}
+	t4 := thoroughOf(q4)
 	sweepProp("C04", "All FindAll* forms, Count, iterators (with early break), AppendAll*Index (three dst shapes) and the Engine enumeration API compared with regexp.FindAllSubmatchIndex for n in {-1,0,1,2,3,|m|,|m|+1}."+sweepRuleTail, true, false,
 		q4, t4, func(tier string) bx.PerHay {
 			return func(cx *bx.Ctx, h []byte, hi int) bool { return cx.OpsC04(h, tier == "thorough") }
@@ -110,8 +121,12 @@ func init() {
 // c10Plan: the C01-C04 operations in leftmost-longest mode (Longest() and CompilePOSIX) against package regexp in
 // the same mode, preceded by the mode-isolation history exploration.
 func c10Plan(tier string) *harness.Plan {
-	q := bx.Tier{PN: 3, SK: 0, LASCII: 4, LUTF8: 3, LRaw: 3, EmbedW: 1, EmbedPN: 3, TokL: 3, TokN: 6, SeedEmbW: 1, SeedJ: []int{0, 33}, Modes: []string{"longest", "posix"}, Budget: 150 * time.Second}
-	t := bx.Tier{PN: 4, SK: 1, LASCII: 4, LBig: 3, LUTF8: 3, LRaw: 3, EmbedW: 1, EmbedPN: 3, TokL: 3, TokN: 6, SeedEmbW: 1, SeedJ: []int{0, 33}, Modes: []string{"longest", "posix"}, Budget: 40 * time.Minute}
+	q := bx.Tier{PN: 3, SK: 0, LASCII: 3, LUTF8: 3, LRaw: 2, EmbedW: 1, EmbedPN: 3, TokL: 3, TokN: 6, SeedEmbW: 1, SeedJ: []int{0, 33}, Modes: []string{"longest", "posix"}, Budget: 150 * time.Second}
+	// thorough: plus every 4-node pattern on ASCII haystacks of <= 3 symbols and the one-edit seed neighbourhoods on
+	// their token words (a superset of the quick space)
+	t := q
+	t.PN, t.HugePN, t.LHuge, t.SK, t.SeedEmbFirst, t.Budget = 4, 3, 3, 1, nSeeds, 25*time.Minute
+	t.LASCII, t.LRaw = 4, 3
 	sp := bx.NewSpace(sweepTier(tier, q, t))
 	body := func(cx *bx.Ctx, h []byte, hi int) bool {
 		k := bx.HayHash(h)
